@@ -20,7 +20,7 @@ PROPS = {
     ),
     "C06": dict(
         lean=["Upf.Props.C06"],
-        claim="Theorems for every pool, session id and operation sequence (no bound): construction yields exactly the addresses strictly "
+        claim="At the level of the agent (BESS agent model, any number of associations): along every history of association setups, PFD updates, establishments accepted or refused at any point, deletions, reports, association endings and FAR-updating modifications, starting from the freshly built pool, the pool invariant holds and every held address is held under the SEID of a stored session (pool_invariant_along_every_history). Theorems for every pool, session id and operation sequence (no bound): construction yields exactly the addresses strictly "
               "between network and broadcast; the invariant (free ++ held is a permutation of the pool, no session twice) holds in every "
               "reachable state, hence in-range, exclusive, conserved; sticky; released exactly; refused iff nothing free. Concurrency: the "
               "regenerated lock facts (every method touching the state holds the mutex) instantiate the lockset theorem.",
@@ -228,7 +228,7 @@ PROPS = {
     "C05": dict(
         lean=["Upf.Props.C05"],
         level="proof",
-        claim="Along every history of the BESS agent model (establishments accepted or refused at any point, deletions, reports 'context not found', association endings; any number of associations and sessions): a TEID is in use in the allocator only if a stored session's PDR holds it and a key is present in a lookup table only if a stored session has it; once no session is left no TEID is in use and the four tables are empty (nothing_leaks_along_every_history, all_ended_all_returned). For every world and request of the agent model: the pool invariant (C06) is preserved by every establishment (accepted or refused at any point) and "
+        claim="No UE address is leaked: once no session is left, every configured address is free again (addresses_all_returned). Along every history of the BESS agent model (establishments accepted or refused at any point, deletions, reports 'context not found', association endings; any number of associations and sessions): a TEID is in use in the allocator only if a stored session's PDR holds it and a key is present in a lookup table only if a stored session has it; once no session is left no TEID is in use and the four tables are empty (nothing_leaks_along_every_history, all_ended_all_returned). For every world and request of the agent model: the pool invariant (C06) is preserved by every establishment (accepted or refused at any point) and "
               "every deletion; the release gives back the session's address and TEIDs; an accepted deletion drops exactly the session's record; an ended "
               "association is forgotten. Tied by T2 to the REAL agent for all five ways a session ends (deletion, association release, read timeout, heartbeat "
               "failure, report 'context not found') after accepted and rejected requests: fake-BESS tables, pool/TEID/store occupancy through hooks, the "
@@ -261,6 +261,7 @@ PROPS = {
         timeout={"quick": 1500, "thorough": 20000},
     ),
     "C13": dict(
+        confirm_timing=True,
         lean=["Upf.Props.C13"],
         level="proof",
         claim="For every monotone time-stamped report sequence over any number of sessions and every interval: a first report passes; after a forwarded notification "
@@ -277,6 +278,7 @@ PROPS = {
         assumptions=["monotone clock", "one association"],
     ),
     "C12": dict(
+        confirm_timing=True,
         lean=["Upf.Props.C12"],
         level="proof",
         claim="For every retry count N, sequence number and event sequence of the waiter (timeouts, responses with any sequence number, shutdown): at most 1+N "
